@@ -14,6 +14,14 @@ number; clone does not share a reader its parent owns; an inverted PageRange is
 an error).  The `…_pinned_counterexample` theorems show, on the models of the
 pinned code, the witnesses that made those fixes necessary.
 
+Since the deepening round the store model has all fourteen terminal operations, the three
+non-terminal ones, the format of the file and the `ensurePDFReader` path (fourth fix: a
+PDF-only operation on a file of another format released nothing), so `derive_preserves_parent`,
+`terminal_releases` and `close_idempotent` below quantify over all of them.  Further theorems:
+`C10Life.lean` (every terminal operation, every format), `C10Hist.lean` (invariants over
+histories), `C10E2E.lean` (the statement end to end over chains of calls), `C10Pipe.lean`
+(options inside `Text`), `C10Meta.lean` (`Headings().PageIndex`, numbering of `Analyze`).
+
 `specPages sel n` is the list of 0-based indices `k < n` with `k+1 ∈ sel`, in
 document order: the "sorted, de-duplicated, 0-based" form of the selection,
 defined without sorting.  Descriptor accounting (`fdCount`) is about the handle
@@ -339,43 +347,25 @@ theorem derive_preserves_parent_pinned_counterexample :
 
 /-! ## handles -/
 
-/-- **terminal_releases**: after any terminal operation on extractor `i` — successful or
-failed (builder error, file that cannot be opened, unreadable page tree, page out of range,
-file closed under it) — `i` owns no reader, and the number of open descriptors has dropped
+/-- **terminal_releases**: after any of the fourteen terminal operations on extractor `i`, on a
+file of any format — successful or failed (builder error, file that cannot be opened,
+unreadable page tree, page out of range, file closed under it, operation not supported for
+the format) — `i` owns no reader, and the number of open descriptors has dropped
 by exactly what `i` held before: nothing the operation opened stays open. -/
 theorem terminal_releases (w : World) (k : Term) (s : Store) (hs : StoreInv s) (i : Nat)
     (e : Ext) (he : s.exts[i]? = some e) :
     ∃ e', (terminal w k s i).1.exts[i]? = some e' ∧ e'.owns = false ∧
       (terminal w k s i).1.fdCount + (if e.owns then 1 else 0) = s.fdCount := by
-  unfold terminal
-  simp only [he]
-  cases herr : e.err with
-  | true =>
+  rw [terminal_fst w k s i e he]
+  split
+  · rename_i hc
+    have herr : e.err = true := by
+      simp only [Bool.and_eq_true] at hc; exact hc.2
     have := hs.errNoOwn i e he herr
-    exact ⟨e, by simpa using he, this, by simp [this]⟩
-  | false =>
-    simp only [Bool.false_eq_true, if_false]
-    rcases ensureReader_cases w s i e with ⟨_, hr⟩ | ⟨ho, _, x, hr⟩ | ⟨ho, hf, _, hr⟩
-    · rw [hr]
-      exact closeExt_releases hs he
-    · rw [hr]
-      have := (hs.unopened i e he ho).1
-      exact ⟨e, by simpa using he, this, by simp [this]⟩
-    · rw [hr]
-      have hown := (hs.unopened i e he ho).1
-      obtain ⟨e', h1, h2, h3⟩ :=
-        closeExt_releases (inv_openNew hs he ho hf herr) (set_self_getElem? he)
-      refine ⟨e', h1, h2, ?_⟩
-      have hfd : (openNew s i e).1.fdCount = s.fdCount + 1 := by
-        simp [openNew, Store.fdCount, List.count_append]
-      have howns : (openNew s i e).2.owns = true := rfl
-      rw [howns] at h3
-      simp only [if_true] at h3
-      show (closeExt (openNew s i e).1 i (openNew s i e).2).fdCount +
-        (if e.owns = true then 1 else 0) = s.fdCount
-      rw [hown]
-      simp only [Bool.false_eq_true, if_false]
-      omega
+    exact ⟨e, he, this, by simp [this]⟩
+  · split
+    · exact mismatch_releases w hs he
+    · exact termStore_releases w hs he
 
 /-- a terminal operation on an extractor that held nothing leaves the descriptor count
 where it was, whatever happened inside -/
